@@ -12,6 +12,7 @@ RULE = ('random DFAs, NFAs, regexps, grammars, PDAs (incl. a closure limit small
         'two checkers). Every operation is called with an argument snapshot before and after, a second time, again after a prefix of unrelated library calls, and with logging on; the whole case runs in fresh processes with '
         '4 (quick) / 16 (thorough) PYTHONHASHSEED values. Relation: snapshots equal; verdicts, enumerations, printed texts and checker verdicts identical across calls and across hash seeds; constructed objects have the same language '
         '(exact oracle for DFA / NFA / regexp results, enumeration up to length 4 for grammar and PDA results). Non-trivial = the object has >= 2 states / rules / nodes; distinct by object.')
+RULE += ' Added after the seeded rounds: sibling objects (same rules / transitions, another start variable / initial state / accepting set) operated on first in every second process; chain DFAs of 5-9 states; PDAs already in push/pop form with one accepting state; grammar utilities (productive variables, removal of unproductive variables / rules A -> A, cfg_to_nfa) with their models (informational).'
 CODES = {9: 'generated object invalid (harness)', 10: 'dfa_accepts_word differs from the model value', 11: 'dfa_words_up_to_n differs from the model value', 12: 'a minimiser result is not language-equivalent',
          13: 'dfa_to_regexp result not language-equivalent', 30: 'nfa_accepts_word differs from the model value', 31: 'nfa_words_up_to_n differs from the model value', 32: 'nfa_to_dfa result not language-equivalent',
          33: 'nfa_repetition result not language-equivalent to the model', 99: 'a value that must not depend on PYTHONHASHSEED or on earlier calls differs between two fresh processes (different hash seed; in every second process the same operation is first applied to a sibling object)'}
